@@ -352,6 +352,13 @@ func intersectionStableSorted(a0, a1, b0, b1 Point) (Point, bool) {
 	//         return pt, false
 	// }
 
+	// If x.Norm2() is not a normalized float64, the length loses precision
+	// (or is zero) and the result would not be a unit vector: let the exact
+	// method handle such tiny edges.
+	if x.Norm2() < 0x1p-1022 {
+		return pt, false
+	}
+
 	xLen := x.Norm()
 	maxError := intersectionError
 	if err > (float64(maxError)-tErr)*xLen {
